@@ -141,19 +141,24 @@ structure CB where
   out : List Nat
   deriving Repr, DecidableEq
 
+/-- one iteration of the inner `for remFromBits > 0` loop: the new `(b, remFromBits, state)` -/
+def cbIter (toBits b rem : Nat) (st : CB) : Nat × Nat × CB :=
+  let remTo := toBits - st.filled
+  let ex := if remTo < rem then remTo else rem
+  let next := ((st.next <<< ex) % 256) ||| (b >>> (8 - ex))
+  let b' := (b <<< ex) % 256
+  let rem' := rem - ex
+  let filled := st.filled + ex
+  if filled = toBits then (b', rem', ⟨0, 0, st.out ++ [next]⟩)
+  else (b', rem', ⟨next, filled, st.out⟩)
+
 /-- the inner `for remFromBits > 0` loop on one (already left-aligned) input byte `b` -/
 def cbInner (toBits : Nat) : Nat → Nat → Nat → CB → CB
   | 0, _, _, st => st
   | fuel + 1, b, rem, st =>
     if rem = 0 then st else
-    let remTo := toBits - st.filled
-    let ex := if remTo < rem then remTo else rem
-    let next := ((st.next <<< ex) % 256) ||| (b >>> (8 - ex))
-    let b' := (b <<< ex) % 256
-    let rem' := rem - ex
-    let filled := st.filled + ex
-    if filled = toBits then cbInner toBits fuel b' rem' ⟨0, 0, st.out ++ [next]⟩
-    else cbInner toBits fuel b' rem' ⟨next, filled, st.out⟩
+    let r := cbIter toBits b rem st
+    cbInner toBits fuel r.1 r.2.1 r.2.2
 
 /-- one input byte -/
 def cbByte (fromBits toBits : Nat) (st : CB) (b : Nat) : CB :=
